@@ -106,6 +106,14 @@ def check_case(res, case, verbose=False):
             sim = LogicSim(b.circuit, sims=n, m=2)
             for k in range(nI): lsim.assign2(sim, ipos[k], in_vals[k], n)
             for k in range(nS): lsim.assign2(sim, spos[k], st_vals[k], n)
+            if common.h64(case['nl']) & 1:
+                # the same simulator object first processes the complemented batch: results must not depend on that history
+                for k in range(nI): lsim.assign2(sim, ipos[k], ~in_vals[k] & mask, n)
+                for k in range(nS): lsim.assign2(sim, spos[k], ~st_vals[k] & mask, n)
+                sim.s_to_c(); sim.c_prop(); sim.c_to_s()
+                for k in range(nI): lsim.assign2(sim, ipos[k], in_vals[k], n)
+                for k in range(nS): lsim.assign2(sim, spos[k], st_vals[k], n)
+                res.count('tt_with_history')
             sim.s_to_c(); sim.c_prop(); sim.c_to_s()
             v = nl.eval2(in_vals, st_vals, mask)
             sigparts = []
@@ -177,7 +185,7 @@ def check_case(res, case, verbose=False):
 
 
 def finish(agg, tier):
-    need = ['with_unconnected_pin', 'with_dangling_gate', 'cycle_runs', 'batch_runs']
+    need = ['with_unconnected_pin', 'with_dangling_gate', 'cycle_runs', 'batch_runs', 'tt_with_history']
     missing = [k for k in need if agg.counters.get(k, 0) == 0]
     if missing:
         raise common.HarnessError(f'vacuity guard: counters {missing} are zero')
